@@ -159,3 +159,28 @@ Theorem src_parse_subseconds_tie : forall fuel buf dp s0,
 Proof. exact sf_ParseSubSeconds_tie. Qed.
 Print Assumptions src_parse_subseconds_tie.
 
+
+From CCTZ Require Import ScanSound.
+(* "returns true only if the whole input (apart from leading, trailing and format-directed whitespace) matches the format":
+   soundness of the scanner against a DECLARATIVE grammar (ScanSound.Matches: one rule per kind of format item - format
+   whitespace matches any run of whitespace, a literal byte itself, %% a percent sign, each library specifier the documented
+   numeral / offset / fraction forms with their ranges, anything else what strptime consumed), for EVERY pair of byte
+   strings; the state the scanner returns is the fold of the events the matched text denotes.  The only premise:
+   strptime returns a suffix of the text it was given.  Where the code is more liberal than time_zone.h documents
+   (offsets +hh / +hhmm(ss) without colons under %Ez, an empty %E*f, leading zeros of %u %w %U %W) the grammar has explicitly
+   named extra rules (off_extra_*, xf_extra_empty). *)
+Theorem scan_sound : forall strptime_o fmt data rest s,
+  returns_suffix strptime_o ->
+  scan_loop strptime_o (S (length fmt)) fmt data ps0 = OK (Some (rest, s)) ->
+  exists consumed evs, data = consumed ++ rest /\ Matches fmt consumed rest evs /\ s = apply_events strptime_o evs ps0.
+Proof. exact ScanSound.scan_sound. Qed.
+Print Assumptions scan_sound.
+Theorem parse_sound : forall strptime_o tz utc fmt input t fs,
+  returns_suffix strptime_o ->
+  parse_impl strptime_o tz utc fmt input = OK (Some (t, fs)) ->
+  exists lead text trail evs,
+    c_str input = lead ++ text ++ trail /\ Forall space lead /\ Forall space trail /\
+    Matches (c_str fmt) text trail evs /\
+    parse_finish tz utc (Some (trail, apply_events strptime_o evs ps0)) = OK (Some (t, fs)).
+Proof. exact ScanSound.parse_sound. Qed.
+Print Assumptions parse_sound.
